@@ -42,7 +42,27 @@ var ctxs = []ctx{
 	{"capture", "{\nvar fl []func() int\nfor i := 0; i < 2; i++ {\nfl = append(fl, func() int {\nBODY\nreturn a + i\n})\n}\nfor _, f := range fl {\nb += f()\n}\n}"},
 	{"deferred", "func() {\ndefer func() {\nBODY\n}()\na++\n}()"},
 	{"named", "b += func() (res int) {\ndefer func() {\nres += a\n}()\nBODY\nreturn b\n}()"},
+	// second generation (index >= nOld): range over the live variable itself, switch forms with several expressions per
+	// case / init + side-effecting tag, shadowing of a loop variable in its own body, per-iteration locals captured by
+	// pointer and closure, named results returned swapped / read while the call is in flight
+	{"rangeSV", "{\nn := 0\nfor i, v := range s {\nn++\nif n > 5 {\nbreak\n}\nb += i + v\nBODY\n}\n}"},
+	{"rangeSVval", "{\nn := 0\nfor _, v := range s {\nn++\nif n > 5 {\nbreak\n}\nb += v\nBODY\n}\n}"},
+	{"rangeField", "{\nn := 0\nfor i, v := range r.S {\nn++\nif n > 5 {\nbreak\n}\nb += i + v\nBODY\n}\n}"},
+	{"rangeArrVar", "for i, v := range ar {\nb += i + v\nBODY\n}"},
+	{"rangePtrArr", "for i, v := range &ar {\nb += i + v\nBODY\n}"},
+	{"rangeStrKey", "for i := range \"hé!\" {\nb += i\nBODY\n}"},
+	{"shadowLoopVar", "for i := 0; i < 2; i++ {\ni := i * 10\nb += i\nBODY\n}"},
+	{"switchNoTagMulti", "switch {\ncase a > 100, a < b:\nBODY\ncase a == b, a == b+4:\nb++\ndefault:\na--\n}"},
+	{"switchInitCall", "switch x := a & 1; inc(&b) % 2 {\ncase 0:\nb += x\ncase 1:\nBODY\n}"},
+	{"switchTagMulti", "switch a % 4 {\ncase 0, 3:\nBODY\ncase 1, 2:\nb++\n}"},
+	{"captureLocal", "{\nvar ps []*[2]int\nvar fl []func() int\nfor i := 0; i < 2; i++ {\nloc := [2]int{i, a}\nsl := []int{i}\nps = append(ps, &loc)\nfl = append(fl, func() int { return sl[0] + loc[0] })\nBODY\n}\nfor k, pp := range ps {\nb += pp[0] + fl[k]()\n}\n}"},
+	{"namedSwap", "a, b = func() (nx, ny int) {\nnx, ny = a, b\nBODY\nreturn ny, nx\n}()"},
+	{"resultAlias", "a = func() (res int) {\nres = 50\nb += a\nBODY\nreturn res + 1\n}()"},
 }
+
+// nOld is the number of first-generation contexts; the triple-nesting family is complete over those and adds the
+// second-generation contexts as outermost context only.
+const nOld = 26
 
 type pay struct {
 	text  string
@@ -85,6 +105,19 @@ func init() {
 		{"fl := float64(a) / 2\nb = int(fl * 3)", "fl", false}, {"bo := a > b || b == 5\nif bo && a != 0 {\na++\n}", "bo", false},
 		{"a = sum(a, b, 1)", "", false}, {"a = sum(s...)", "", true}, {"a = r.get() + q.get()", "", false}, {"r.set(b)", "", true}, {"q.set(a)", "", false},
 		{"const c = 3\na = c << 2", "c", false}, {"type T struct{ v int }\ntv := T{a}\nb = tv.v", "T tv", false},
+		// second generation: composite literals that read their own destination, parallel assignment order,
+		// append onto a prefix of its own arguments, method values bound to a copy, results aliasing the destination
+		{"ar = [2]int{ar[1], ar[0]}", "", true}, {"r.A = [2]int{r.A[1], r.A[0]}", "", false}, {"r = R{N: r.A[0], A: [2]int{r.N, r.A[1]}, S: r.S}", "", false},
+		{"s = []int{s[2], s[1], s[0]}", "", false}, {"r, *q = R{N: q.N}, R{N: r.N}", "", false},
+		{"a, s[a&1] = b & 1, 9", "", true}, {"a, ar[a&1] = b & 1, a", "", false}, {"g, m[\"k\"] = m[\"k\"], g", "", false},
+		{"s = append(s[:0], s[1], s[0])", "", true}, {"s = append(s[:1], s...)", "", false},
+		{"mv := r.get\nr.N = 40\nb = mv()", "mv", true}, {"ms := q.set\nq = &R{}\nms(a)", "ms", false},
+		{"ar = func() (res [2]int) {\nres[0] = ar[1]\nres[1] = ar[0]\nreturn\n}()", "", false},
+		{"r = func() (res R) {\nres.N = r.N + 1\nres.A[0] = r.A[1]\nreturn\n}()", "", false},
+		{"pa := [2]R{{N: 1}, {N: 2}}\nfor i, v := range pa {\npa[1].N = a + i\nb += v.N\n}", "pa", false},
+		{"a, b = func() (x, y int) {\nx, y = a, b\nreturn y, x\n}()", "", true},
+		// the empty payload: a program "a C/_ = a" fails exactly when the context C alone misbehaves
+		{"_ = a", "", true},
 	}
 	pays = append(pays, more...)
 }
@@ -180,7 +213,7 @@ func main() {
 	tier := flag.String("tier", "quick", "")
 	flag.Parse()
 	thorough := *tier == "thorough"
-	rep := map[string]bool{"plain": true, "for3": true, "rangeS": true, "switchTag": true, "closureStored": true, "labelCont": true, "deferred": true, "gotoBack": true}
+	rep := map[string]bool{"plain": true, "for3": true, "rangeS": true, "switchTag": true, "closureStored": true, "labelCont": true, "deferred": true, "gotoBack": true, "rangeSV": true, "namedSwap": true}
 	// (a) nesting C1[C2[p]]: core payloads under all context pairs; every payload under every single
 	// context; thorough: every payload under all pairs whose outer context is a representative
 	for _, c1 := range ctxs {
@@ -226,6 +259,9 @@ func main() {
 	for _, c := range ctxs {
 		for i, p1 := range pays {
 			for j, p2 := range pays {
+				if p1.text == "_ = a" || p2.text == "_ = a" {
+					continue
+				}
 				corePair := p1.core && p2.core && (thorough || rep[c.name])
 				if !(corePair || (thorough && c.name == "plain")) {
 					continue
@@ -252,9 +288,12 @@ func main() {
 			}
 		}
 		reps = reps[:2]
-		for _, c1 := range ctxs {
-			for _, c2 := range ctxs {
-				for _, c3 := range ctxs {
+		for i1, c1 := range ctxs {
+			for i2, c2 := range ctxs {
+				for i3, c3 := range ctxs {
+					if i2 >= nOld || i3 >= nOld || (i1 >= nOld && !(rep[c2.name] && rep[c3.name])) {
+						continue
+					}
 					for _, pi := range reps {
 						in2 := func() string {
 							in3 := func() string { return "{\n" + subst(c3, lit(withShow(pays[pi]))) + "\n}\n" + show }
@@ -269,7 +308,7 @@ func main() {
 	}
 	// (e) boolean expressions: operand kinds x operators x use forms, evaluated repeatedly in one activation while the
 	// truth values of the operands change (short-circuit code re-reads operand slots: a stale slot shows only on re-evaluation)
-	operands := []string{"a > i", "bv", "mb[ks[i]]", "odd(i)", "t.B", "bs[i%2]", "e.(bool)", "!mb[ks[i]]", "i%2 == 0", "len(ks[i]) > 0 && mb[ks[i]]"}
+	operands := []string{"a > i", "bv", "*pb", "mb[ks[i]]", "odd(i)", "t.B", "bs[i%2]", "e.(bool)", "!mb[ks[i]]", "i%2 == 0", "len(ks[i]) > 0 && mb[ks[i]]"}
 	ne := 0
 	boolProg := func(name, expr string, use int) {
 		var u string
@@ -287,7 +326,7 @@ func main() {
 		case 5:
 			u = "n += btoi(" + expr + ")"
 		}
-		body := "mb := map[string]bool{\"x\": true, \"w\": false}\nks := []string{\"x\", \"y\", \"x\", \"w\"}\nbs := []bool{true, false}\nbv := a > 3\nvar e interface{} = b > 3\nt := struct{ B bool }{a%2 == 0}\nn := 0\nfor i := 0; i < 4; i++ {\nif i == 2 {\ndelete(mb, \"x\")\nt.B = !t.B\nbv = !bv\nif e.(bool) {\ne = false\n} else {\ne = true\n}\n}\n" + u + "\nShow(i, n, len(mb), bv, t.B)\n}\n_, _, _, _, _, _ = mb, ks, bs, bv, e, t"
+		body := "mb := map[string]bool{\"x\": true, \"w\": false}\nks := []string{\"x\", \"y\", \"x\", \"w\"}\nbs := []bool{true, false}\nbv := a > 3\npb := &bs[0]\nvar e interface{} = b > 3\nt := struct{ B bool }{a%2 == 0}\nn := 0\nfor i := 0; i < 4; i++ {\nif i == 2 {\npb = &bs[1]\ndelete(mb, \"x\")\nt.B = !t.B\nbv = !bv\nif e.(bool) {\ne = false\n} else {\ne = true\n}\n}\n" + u + "\nShow(i, n, len(mb), bv, t.B)\n}\n_, _, _, _, _, _, _ = mb, ks, bs, bv, e, t, pb"
 		text := "package main\n\nimport . \"verif/engine/twin/h\"\n\nfunc odd(x int) bool { return x%2 == 1 }\n\nfunc btoi(b bool) int {\nif b {\nreturn 1\n}\nreturn 0\n}\n\nfunc run(a, b int) {\n" + body + "\n}\n\nfunc main() {\nrun(3, 5)\nrun(6, 2)\n}\n"
 		progs = append(progs, emit.Src{Name: name, Text: text})
 		ne++
